@@ -7,7 +7,7 @@ the emitted items.  Core Lean only.
 namespace StubSig
 open StubDefault
 
-variable (sl : Nat → Nat)
+variable (sl : Nat → Nat) (el : Ident → Bool)
 
 /-- the ArgSigs of a run of arguments starting at index `i` -/
 def itemsFrom (i : Nat) : List Arg → List Item
@@ -193,69 +193,69 @@ theorem insertAt_length_append (l1 l2 : List α) (x : α) :
 
 /-! ## (a) signature emission -/
 
-def PySig.aPo (s : PySig) : List Arg := s.po.map (mkArg .pos true)
-def PySig.aPp (s : PySig) : List Arg := s.pp.map (mkArg .pos false)
-def PySig.aVa (s : PySig) : List Arg := s.va.toList.map (mkVArg .star)
-def PySig.aKw (s : PySig) : List Arg := s.kw.map (mkArg .named false)
-def PySig.aKa (s : PySig) : List Arg := s.ka.toList.map (mkVArg .star2)
+def PySig.aPo (s : PySig) : List Arg := s.po.map (mkArgE el .pos true)
+def PySig.aPp (s : PySig) : List Arg := s.pp.map (mkArgE el .pos false)
+def PySig.aVa (s : PySig) : List Arg := s.va.toList.map (mkVArgE el .star)
+def PySig.aKw (s : PySig) : List Arg := s.kw.map (mkArgE el .named false)
+def PySig.aKa (s : PySig) : List Arg := s.ka.toList.map (mkVArgE el .star2)
 
 /-- the bare `*` is emitted exactly when there are keyword-only parameters and no `*args` -/
 def PySig.starItems (s : PySig) : List Item := if s.va.isNone && !s.kw.isEmpty then [.bareStar] else []
 
 /-- the emitted parameter list, written along the grammar's production -/
 def PySig.shape (s : PySig) : List Item :=
-  itemsFrom sl 0 s.aPo ++ (if s.po.isEmpty then [] else [Item.slash]) ++
-  itemsFrom sl s.po.length s.aPp ++ itemsFrom sl (s.po.length + s.pp.length) s.aVa ++ s.starItems ++
-  itemsFrom sl (s.po.length + s.pp.length + s.aVa.length) s.aKw ++
-  itemsFrom sl (s.po.length + s.pp.length + s.aVa.length + s.kw.length) s.aKa
+  itemsFrom sl 0 (s.aPo el) ++ (if s.po.isEmpty then [] else [Item.slash]) ++
+  itemsFrom sl s.po.length (s.aPp el) ++ itemsFrom sl (s.po.length + s.pp.length) (s.aVa el) ++ s.starItems ++
+  itemsFrom sl (s.po.length + s.pp.length + (s.aVa el).length) (s.aKw el) ++
+  itemsFrom sl (s.po.length + s.pp.length + (s.aVa el).length + s.kw.length) (s.aKa el)
 
-theorem countPO_aPo (s : PySig) : countPO s.aPo = s.po.length := by
-  simp [countPO, PySig.aPo, mkArg, List.filter_map, Function.comp_def]
+theorem countPO_aPo (s : PySig) : countPO (s.aPo el) = s.po.length := by
+  simp [countPO, PySig.aPo, mkArgE, List.filter_map, Function.comp_def]
 
-theorem countPO_noElide (l : List PParam) (k : AKind) (h : ∀ p ∈ l, elide p.name = false) :
-    countPO (l.map (mkArg k false)) = 0 := by
+theorem countPO_noElide (l : List PParam) (k : AKind) (h : ∀ p ∈ l, el p.name = false) :
+    countPO (l.map (mkArgE el k false)) = 0 := by
   induction l with
   | nil => rfl
   | cons p r ih =>
     have hp := h p (by simp)
     have := ih (fun x hx => h x (by simp [hx]))
-    simp only [countPO, List.map_cons, List.filter_cons, mkArg, hp, Bool.or_self, Bool.false_eq_true,
+    simp only [countPO, List.map_cons, List.filter_cons, mkArgE, hp, Bool.or_self, Bool.false_eq_true,
       ↓reduceIte] at this ⊢
     exact this
 
-theorem countPO_v (o : Option VParam) (k : AKind) (h : ∀ p ∈ o, elide p.name = false) :
-    countPO (o.toList.map (mkVArg k)) = 0 := by
+theorem countPO_v (o : Option VParam) (k : AKind) (h : ∀ p ∈ o, el p.name = false) :
+    countPO (o.toList.map (mkVArgE el k)) = 0 := by
   cases o with
   | none => rfl
-  | some v => have := h v rfl; simp [countPO, mkVArg, this]
+  | some v => have := h v rfl; simp [countPO, mkVArgE, this]
 
 /-- The loop of `_get_func_args` followed by the `/` insertion produces exactly the grammar-shaped list. -/
-theorem emit_shape (s : PySig) (hne : s.NoElide) : emitArgs sl false s.toMypy = s.shape sl := by
+theorem emit_shape (s : PySig) (hne : s.NoElideE el) : emitArgs sl false (s.toMypyE el) = s.shape sl el := by
   obtain ⟨hpp, hva, hkw, hka⟩ := hne
-  have hsplit : s.toMypy = (s.aPo ++ s.aPp ++ s.aVa) ++ s.aKw ++ s.aKa := by
-    simp [PySig.toMypy, PySig.aPo, PySig.aPp, PySig.aVa, PySig.aKw, PySig.aKa]
-  have h1 : ∀ a ∈ s.aPo ++ s.aPp ++ s.aVa, a.kind ≠ .named := by
+  have hsplit : s.toMypyE el = ((s.aPo el) ++ (s.aPp el) ++ (s.aVa el)) ++ (s.aKw el) ++ (s.aKa el) := by
+    simp [PySig.toMypyE, PySig.aPo, PySig.aPp, PySig.aVa, PySig.aKw, PySig.aKa]
+  have h1 : ∀ a ∈ (s.aPo el) ++ (s.aPp el) ++ (s.aVa el), a.kind ≠ .named := by
     intro a ha
     simp only [PySig.aPo, PySig.aPp, PySig.aVa, List.mem_append, List.mem_map] at ha
-    rcases ha with (⟨p, _, rfl⟩ | ⟨p, _, rfl⟩) | ⟨p, _, rfl⟩ <;> simp [mkArg, mkVArg]
-  have hkwk : ∀ a ∈ s.aKw, a.kind = .named := by
+    rcases ha with (⟨p, _, rfl⟩ | ⟨p, _, rfl⟩) | ⟨p, _, rfl⟩ <;> simp [mkArgE, mkVArgE]
+  have hkwk : ∀ a ∈ (s.aKw el), a.kind = .named := by
     intro a ha; simp only [PySig.aKw, List.mem_map] at ha; obtain ⟨p, _, rfl⟩ := ha; rfl
-  have hkak : ∀ a ∈ s.aKa, a.kind ≠ .named := by
-    intro a ha; simp only [PySig.aKa, List.mem_map] at ha; obtain ⟨p, _, rfl⟩ := ha; simp [mkVArg]
-  have hcnt : countPO (s.aPo ++ s.aPp ++ s.aVa) = s.po.length := by
-    rw [countPO_append, countPO_append, countPO_aPo]
-    have := countPO_noElide s.pp .pos hpp
-    have := countPO_v s.va .star hva
+  have hkak : ∀ a ∈ (s.aKa el), a.kind ≠ .named := by
+    intro a ha; simp only [PySig.aKa, List.mem_map] at ha; obtain ⟨p, _, rfl⟩ := ha; simp [mkVArgE]
+  have hcnt : countPO ((s.aPo el) ++ (s.aPp el) ++ (s.aVa el)) = s.po.length := by
+    rw [countPO_append, countPO_append, countPO_aPo el]
+    have := countPO_noElide el s.pp .pos hpp
+    have := countPO_v el s.va .star hva
     simp_all [PySig.aPp, PySig.aVa]
-  have hcntkw : countPO s.aKw = 0 := countPO_noElide s.kw .named hkw
-  have hcntka : countPO s.aKa = 0 := countPO_v s.ka .star2 hka
+  have hcntkw : countPO (s.aKw el) = 0 := countPO_noElide el s.kw .named hkw
+  have hcntka : countPO (s.aKa el) = 0 := countPO_v el s.ka .star2 hka
   -- the state after the three non-keyword segments
-  have hst1 := fold_nonNamed sl (s.aPo ++ s.aPp ++ s.aVa) h1 { out := [], cnt := 0, idx := 0 }
+  have hst1 := fold_nonNamed sl ((s.aPo el) ++ (s.aPp el) ++ (s.aVa el)) h1 { out := [], cnt := 0, idx := 0 }
   simp only [List.nil_append, Nat.zero_add, hcnt] at hst1
   -- starred-ness of what has been collected so far
-  have hstar : (itemsFrom sl 0 (s.aPo ++ s.aPp ++ s.aVa)).any Item.starred = s.va.isSome := by
+  have hstar : (itemsFrom sl 0 ((s.aPo el) ++ (s.aPp el) ++ (s.aVa el))).any Item.starred = s.va.isSome := by
     rw [itemsFrom_append, List.any_append]
-    have hp : (itemsFrom sl 0 (s.aPo ++ s.aPp)).any Item.starred = false := by
+    have hp : (itemsFrom sl 0 ((s.aPo el) ++ (s.aPp el))).any Item.starred = false := by
       apply itemsFrom_params_not_starred
       intro a ha
       simp only [PySig.aPo, PySig.aPp, List.mem_append, List.mem_map] at ha
@@ -264,16 +264,16 @@ theorem emit_shape (s : PySig) (hne : s.NoElide) : emitArgs sl false s.toMypy = 
     cases hv : s.va with
     | none => simp [PySig.aVa, hv, itemsFrom]
     | some v =>
-      have he : ∀ f, (argItem sl f (mkVArg .star v)).starred = true := by
-        intro f; obtain ⟨ann, he⟩ := argItem_star sl f (mkVArg .star v) rfl rfl; rw [he]; rfl
+      have he : ∀ f, (argItem sl f (mkVArgE el .star v)).starred = true := by
+        intro f; obtain ⟨ann, he⟩ := argItem_star sl f (mkVArgE el .star v) rfl rfl; rw [he]; rfl
       simp [PySig.aVa, hv, itemsFrom, he]
   -- the keyword-only segment
-  have hst2 : (s.aKw).foldl (estep sl false)
-        { out := itemsFrom sl 0 (s.aPo ++ s.aPp ++ s.aVa), cnt := s.po.length, idx := (s.aPo ++ s.aPp ++ s.aVa).length } =
-      { out := itemsFrom sl 0 (s.aPo ++ s.aPp ++ s.aVa) ++ s.starItems ++
-                 itemsFrom sl (s.aPo ++ s.aPp ++ s.aVa).length s.aKw,
-        cnt := s.po.length, idx := (s.aPo ++ s.aPp ++ s.aVa).length + s.aKw.length } := by
-    cases hk : s.aKw with
+  have hst2 : ((s.aKw el)).foldl (estep sl false)
+        { out := itemsFrom sl 0 ((s.aPo el) ++ (s.aPp el) ++ (s.aVa el)), cnt := s.po.length, idx := ((s.aPo el) ++ (s.aPp el) ++ (s.aVa el)).length } =
+      { out := itemsFrom sl 0 ((s.aPo el) ++ (s.aPp el) ++ (s.aVa el)) ++ s.starItems ++
+                 itemsFrom sl ((s.aPo el) ++ (s.aPp el) ++ (s.aVa el)).length (s.aKw el),
+        cnt := s.po.length, idx := ((s.aPo el) ++ (s.aPp el) ++ (s.aVa el)).length + (s.aKw el).length } := by
+    cases hk : (s.aKw el) with
     | nil =>
       have : s.kw = [] := by simpa [PySig.aKw] using hk
       simp [itemsFrom, PySig.starItems, this]
@@ -290,22 +290,22 @@ theorem emit_shape (s : PySig) (hne : s.NoElide) : emitArgs sl false s.toMypy = 
       | some v =>
         rw [fold_named_starred sl (a :: r) hkwk _ (by rw [hstar, hv]; rfl)]
         simp [PySig.starItems, hv, hcntkw]
-  have hst3 := fold_nonNamed sl s.aKa hkak
-    { out := itemsFrom sl 0 (s.aPo ++ s.aPp ++ s.aVa) ++ s.starItems ++
-               itemsFrom sl (s.aPo ++ s.aPp ++ s.aVa).length s.aKw,
-      cnt := s.po.length, idx := (s.aPo ++ s.aPp ++ s.aVa).length + s.aKw.length }
+  have hst3 := fold_nonNamed sl (s.aKa el) hkak
+    { out := itemsFrom sl 0 ((s.aPo el) ++ (s.aPp el) ++ (s.aVa el)) ++ s.starItems ++
+               itemsFrom sl ((s.aPo el) ++ (s.aPp el) ++ (s.aVa el)).length (s.aKw el),
+      cnt := s.po.length, idx := ((s.aPo el) ++ (s.aPp el) ++ (s.aVa el)).length + (s.aKw el).length }
   simp only [hcntka, Nat.add_zero] at hst3
-  have hlen : (s.aPo ++ s.aPp ++ s.aVa).length = s.po.length + s.pp.length + s.aVa.length := by
+  have hlen : ((s.aPo el) ++ (s.aPp el) ++ (s.aVa el)).length = s.po.length + s.pp.length + (s.aVa el).length := by
     simp [PySig.aPo, PySig.aPp]; omega
-  have hlenkw : s.aKw.length = s.kw.length := by simp [PySig.aKw]
+  have hlenkw : (s.aKw el).length = s.kw.length := by simp [PySig.aKw]
   unfold emitArgs
   rw [hsplit, List.foldl_append, List.foldl_append, hst1, hst2, hst3]
   simp only [hlen, hlenkw]
   rw [itemsFrom_append, itemsFrom_append]
-  have hpolen : (itemsFrom sl 0 s.aPo).length = s.po.length := by
+  have hpolen : (itemsFrom sl 0 (s.aPo el)).length = s.po.length := by
     rw [itemsFrom_length]; simp [PySig.aPo]
-  have hapolen : s.aPo.length = s.po.length := by simp [PySig.aPo]
-  have happlen : s.aPp.length = s.pp.length := by simp [PySig.aPp]
+  have hapolen : (s.aPo el).length = s.po.length := by simp [PySig.aPo]
+  have happlen : (s.aPp el).length = s.pp.length := by simp [PySig.aPp]
   unfold PySig.shape
   cases hpo : s.po with
   | nil =>
@@ -318,118 +318,118 @@ theorem emit_shape (s : PySig) (hne : s.NoElide) : emitArgs sl false s.toMypy = 
     rw [← hpolen, insertAt_length_append]
     simp [hpolen]
 
-theorem aPo_hasD (s : PySig) : (s.aPo.map fun a => a.dflt.isSome) = s.po.map PParam.hasD := by
-  simp [PySig.aPo, mkArg, PParam.hasD, Function.comp_def]
-theorem aPp_hasD (s : PySig) : (s.aPp.map fun a => a.dflt.isSome) = s.pp.map PParam.hasD := by
-  simp [PySig.aPp, mkArg, PParam.hasD, Function.comp_def]
+theorem aPo_hasD (s : PySig) : ((s.aPo el).map fun a => a.dflt.isSome) = s.po.map PParam.hasD := by
+  simp [PySig.aPo, mkArgE, PParam.hasD, Function.comp_def]
+theorem aPp_hasD (s : PySig) : ((s.aPp el).map fun a => a.dflt.isSome) = s.pp.map PParam.hasD := by
+  simp [PySig.aPp, mkArgE, PParam.hasD, Function.comp_def]
 
 /-- parsing the positional part of the shape -/
 theorem run_positional (s : PySig) (hd : s.DefaultsOk) (hgd : s.GoodDefaults) :
-    run PSt.init (itemsFrom sl 0 s.aPo ++ (if s.po.isEmpty then [] else [Item.slash]) ++
-        itemsFrom sl s.po.length s.aPp) =
+    run PSt.init (itemsFrom sl 0 (s.aPo el) ++ (if s.po.isEmpty then [] else [Item.slash]) ++
+        itemsFrom sl s.po.length (s.aPp el)) =
       some { ph := if s.po.isEmpty then .pre else .post, sd := (s.po ++ s.pp).any PParam.hasD, nk := false,
              acc := s.po.map (fun p => (p.name, PKind.posOnly, p.hasD)) ++
                     s.pp.map (fun p => (p.name, PKind.pos, p.hasD)) } := by
   unfold PySig.DefaultsOk at hd
   rw [List.map_append, mono_append, Bool.and_eq_true] at hd
   obtain ⟨hm1, hm2⟩ := hd
-  have hkpo : ∀ a ∈ s.aPo, a.kind = .pos := by
+  have hkpo : ∀ a ∈ (s.aPo el), a.kind = .pos := by
     intro a ha; simp only [PySig.aPo, List.mem_map] at ha; obtain ⟨p, _, rfl⟩ := ha; rfl
-  have hkpp : ∀ a ∈ s.aPp, a.kind = .pos := by
+  have hkpp : ∀ a ∈ (s.aPp el), a.kind = .pos := by
     intro a ha; simp only [PySig.aPp, List.mem_map] at ha; obtain ⟨p, _, rfl⟩ := ha; rfl
   have hfun : (fun x : PParam => x.dflt.isSome) = PParam.hasD := rfl
-  have hanyPo : (s.aPo.any fun a => a.dflt.isSome) = s.po.any PParam.hasD := by
-    simp [PySig.aPo, mkArg, List.any_map, Function.comp_def, hfun]
-  have hanyPp : (s.aPp.any fun a => a.dflt.isSome) = s.pp.any PParam.hasD := by
-    simp [PySig.aPp, mkArg, List.any_map, Function.comp_def, hfun]
-  have hgpo : GoodArgs s.aPo := by
+  have hanyPo : ((s.aPo el).any fun a => a.dflt.isSome) = s.po.any PParam.hasD := by
+    simp [PySig.aPo, mkArgE, List.any_map, Function.comp_def, hfun]
+  have hanyPp : ((s.aPp el).any fun a => a.dflt.isSome) = s.pp.any PParam.hasD := by
+    simp [PySig.aPp, mkArgE, List.any_map, Function.comp_def, hfun]
+  have hgpo : GoodArgs (s.aPo el) := by
     intro a ha d hdm
     simp only [PySig.aPo, List.mem_map] at ha; obtain ⟨p, hp, rfl⟩ := ha
     exact hgd p (by simp [hp]) d hdm
-  have hgpp : GoodArgs s.aPp := by
+  have hgpp : GoodArgs (s.aPp el) := by
     intro a ha d hdm
     simp only [PySig.aPp, List.mem_map] at ha; obtain ⟨p, hp, rfl⟩ := ha
     exact hgd p (by simp [hp]) d hdm
   have hanyId : ((s.po.map PParam.hasD).any id) = s.po.any PParam.hasD := by
     simp [List.any_map, Function.comp_def]
-  have haccPo : (s.aPo.map fun a => (a.name, PKind.pos, a.dflt.isSome)) =
+  have haccPo : ((s.aPo el).map fun a => (a.name, PKind.pos, a.dflt.isSome)) =
       s.po.map fun p => (p.name, PKind.pos, p.hasD) := by
-    simp [PySig.aPo, mkArg, PParam.hasD, Function.comp_def]
-  have haccPp : (s.aPp.map fun a => (a.name, PKind.pos, a.dflt.isSome)) =
+    simp [PySig.aPo, mkArgE, PParam.hasD, Function.comp_def]
+  have haccPp : ((s.aPp el).map fun a => (a.name, PKind.pos, a.dflt.isSome)) =
       s.pp.map fun p => (p.name, PKind.pos, p.hasD) := by
-    simp [PySig.aPp, mkArg, PParam.hasD, Function.comp_def]
+    simp [PySig.aPp, mkArgE, PParam.hasD, Function.comp_def]
   rw [run_append, run_append]
   rw [show PSt.init = { ph := .pre, sd := false, nk := false, acc := [] } from rfl]
-  rw [run_pos sl s.aPo hkpo 0 .pre false false [] (Or.inl rfl) hgpo (by rw [aPo_hasD]; exact hm1)]
+  rw [run_pos sl (s.aPo el) hkpo 0 .pre false false [] (Or.inl rfl) hgpo (by rw [aPo_hasD]; exact hm1)]
   simp only [Option.bind_some, Bool.false_or, List.nil_append, hanyPo, haccPo]
   rw [hanyId] at hm2
   cases hpo : s.po with
   | nil =>
     simp only [List.isEmpty_nil, ↓reduceIte, run, Option.bind_some, List.any_nil, List.map_nil, List.length_nil]
     rw [hpo] at hm2
-    rw [run_pos sl s.aPp hkpp 0 .pre false false [] (Or.inl rfl) hgpp (by rw [aPp_hasD]; simpa using hm2)]
+    rw [run_pos sl (s.aPp el) hkpp 0 .pre false false [] (Or.inl rfl) hgpp (by rw [aPp_hasD]; simpa using hm2)]
     simp [hanyPp, haccPp]
   | cons p r =>
     rw [hpo] at hm2
     simp only [List.isEmpty_cons, Bool.false_eq_true, ↓reduceIte, run, pstep, List.map_cons, List.isEmpty_cons,
       Option.bind_some]
-    rw [run_pos sl s.aPp hkpp _ .post _ false _ (Or.inr rfl) hgpp (by rw [aPp_hasD]; exact hm2)]
+    rw [run_pos sl (s.aPp el) hkpp _ .post _ false _ (Or.inr rfl) hgpp (by rw [aPp_hasD]; exact hm2)]
     simp [hanyPp, haccPp, toPosOnly, Function.comp_def, Bool.or_assoc]
 
 /-- parsing what follows the positional part -/
 theorem run_tail (s : PySig) (hgd : s.GoodDefaults) (i j k : Nat) (ph : Phase) (sd : Bool) (acc : List Summ)
     (hph : ph = .pre ∨ ph = .post) :
     ∃ st', run { ph := ph, sd := sd, nk := false, acc := acc }
-        (itemsFrom sl i s.aVa ++ s.starItems ++ itemsFrom sl j s.aKw ++ itemsFrom sl k s.aKa) = some st' ∧
+        (itemsFrom sl i (s.aVa el) ++ s.starItems ++ itemsFrom sl j (s.aKw el) ++ itemsFrom sl k (s.aKa el)) = some st' ∧
       st'.nk = false ∧
       st'.acc = acc ++ s.va.toList.map (fun p => (p.name, PKind.varArg, false)) ++
                 s.kw.map (fun p => (p.name, PKind.kwOnly, p.hasD)) ++
                 s.ka.toList.map (fun p => (p.name, PKind.kwArg, false)) := by
-  have hkw : ∀ a ∈ s.aKw, a.kind = .named := by
+  have hkw : ∀ a ∈ (s.aKw el), a.kind = .named := by
     intro a ha; simp only [PySig.aKw, List.mem_map] at ha; obtain ⟨p, _, rfl⟩ := ha; rfl
-  have hacckw : (s.aKw.map fun a => (a.name, PKind.kwOnly, a.dflt.isSome)) =
+  have hacckw : ((s.aKw el).map fun a => (a.name, PKind.kwOnly, a.dflt.isSome)) =
       s.kw.map fun p => (p.name, PKind.kwOnly, p.hasD) := by
-    simp [PySig.aKw, mkArg, PParam.hasD, Function.comp_def]
-  have hemp : s.aKw.isEmpty = s.kw.isEmpty := by simp [PySig.aKw]
-  have hgkw : GoodArgs s.aKw := by
+    simp [PySig.aKw, mkArgE, PParam.hasD, Function.comp_def]
+  have hemp : (s.aKw el).isEmpty = s.kw.isEmpty := by simp [PySig.aKw]
+  have hgkw : GoodArgs (s.aKw el) := by
     intro a ha d hdm
     simp only [PySig.aKw, List.mem_map] at ha; obtain ⟨p, hp, rfl⟩ := ha
     exact hgd p (by simp [hp]) d hdm
   -- the `**kwargs` step, from any phase but `done`, with no pending bare star
   have hka : ∀ (ph' : Phase) (acc' : List Summ), ph' ≠ .done →
-      ∃ st', run { ph := ph', sd := sd, nk := false, acc := acc' } (itemsFrom sl k s.aKa) = some st' ∧
+      ∃ st', run { ph := ph', sd := sd, nk := false, acc := acc' } (itemsFrom sl k (s.aKa el)) = some st' ∧
         st'.nk = false ∧ st'.acc = acc' ++ s.ka.toList.map (fun p => (p.name, PKind.kwArg, false)) := by
     intro ph' acc' hne
     cases hk : s.ka with
     | none => exact ⟨{ ph := ph', sd := sd, nk := false, acc := acc' }, by simp [PySig.aKa, hk, itemsFrom, run], rfl, by simp⟩
     | some v =>
-      obtain ⟨ann, he⟩ := argItem_star2 sl (k == 0) (mkVArg .star2 v) rfl rfl
-      have he' : argItem sl (k == 0) (mkVArg .star2 v) = .kwarg v.name ann := he
+      obtain ⟨ann, he⟩ := argItem_star2 sl (k == 0) (mkVArgE el .star2 v) rfl rfl
+      have he' : argItem sl (k == 0) (mkVArgE el .star2 v) = .kwarg v.name ann := he
       refine ⟨{ ph := .done, sd := sd, nk := false, acc := acc' ++ [(v.name, PKind.kwArg, false)] }, ?_, rfl, by simp⟩
       cases ph' <;> simp_all [PySig.aKa, itemsFrom, run, pstep]
   rw [run_append, run_append, run_append]
   cases hv : s.va with
   | some v =>
-    obtain ⟨ann, he⟩ := argItem_star sl (i == 0) (mkVArg .star v) rfl rfl
-    have he' : argItem sl (i == 0) (mkVArg .star v) = .vararg v.name ann := he
-    have h1 : run { ph := ph, sd := sd, nk := false, acc := acc } (itemsFrom sl i s.aVa) =
+    obtain ⟨ann, he⟩ := argItem_star sl (i == 0) (mkVArgE el .star v) rfl rfl
+    have he' : argItem sl (i == 0) (mkVArgE el .star v) = .vararg v.name ann := he
+    have h1 : run { ph := ph, sd := sd, nk := false, acc := acc } (itemsFrom sl i (s.aVa el)) =
         some { ph := .kw, sd := sd, nk := false, acc := acc ++ [(v.name, PKind.varArg, false)] } := by
       rcases hph with rfl | rfl <;> simp [PySig.aVa, hv, itemsFrom, run, he', pstep]
     have h2 : s.starItems = [] := by simp [PySig.starItems, hv]
     rw [h1, h2]
-    simp only [Option.bind_some, run, run_kw sl s.aKw hkw hgkw, Bool.false_and, hacckw]
+    simp only [Option.bind_some, run, run_kw sl (s.aKw el) hkw hgkw, Bool.false_and, hacckw]
     obtain ⟨st', hr, hn, ha⟩ := hka .kw (acc ++ [(v.name, PKind.varArg, false)] ++
       s.kw.map fun p => (p.name, PKind.kwOnly, p.hasD)) (by simp)
     exact ⟨st', hr, hn, by simp [ha]⟩
   | none =>
-    have h1 : run { ph := ph, sd := sd, nk := false, acc := acc } (itemsFrom sl i s.aVa) =
+    have h1 : run { ph := ph, sd := sd, nk := false, acc := acc } (itemsFrom sl i (s.aVa el)) =
         some { ph := ph, sd := sd, nk := false, acc := acc } := by simp [PySig.aVa, hv, itemsFrom, run]
     rw [h1]
     simp only [Option.bind_some]
     cases hq : s.kw with
     | nil =>
       have h2 : s.starItems = [] := by simp [PySig.starItems, hq]
-      have h3 : s.aKw = [] := by simp [PySig.aKw, hq]
+      have h3 : (s.aKw el) = [] := by simp [PySig.aKw, hq]
       rw [h2, h3]
       simp only [run, itemsFrom, Option.bind_some]
       obtain ⟨st', hr, hn, ha⟩ := hka ph acc (by rcases hph with rfl | rfl <;> simp)
@@ -439,9 +439,9 @@ theorem run_tail (s : PySig) (hgd : s.GoodDefaults) (i j k : Nat) (ph : Phase) (
       have h3 : run { ph := ph, sd := sd, nk := false, acc := acc } [Item.bareStar] =
           some { ph := .kw, sd := sd, nk := true, acc := acc } := by
         rcases hph with rfl | rfl <;> simp [run, pstep]
-      have h4 : s.aKw.isEmpty = false := by rw [hemp, hq]; rfl
+      have h4 : (s.aKw el).isEmpty = false := by rw [hemp, hq]; rfl
       rw [h2, h3]
-      simp only [Option.bind_some, run_kw sl s.aKw hkw hgkw, h4, Bool.and_false, hacckw]
+      simp only [Option.bind_some, run_kw sl (s.aKw el) hkw hgkw, h4, Bool.and_false, hacckw]
       rw [← hq]
       obtain ⟨st', hr, hn, ha⟩ := hka .kw (acc ++ s.kw.map fun p => (p.name, PKind.kwOnly, p.hasD)) (by simp)
       exact ⟨st', hr, hn, by simp [ha]⟩
@@ -461,5 +461,97 @@ theorem itemsFrom_params (i : Nat) (l : List Arg) (h : ∀ a ∈ l, a.kind = .po
       · rw [he]; rfl
       · exact h1 x hx
     · simp [itemsFrom, he, Item.hasD, hd, h2]
+
+/-- the round trip, for any name rule `el` -/
+theorem roundtrip_E (s : PySig) (hd : s.DefaultsOk) (hne : s.NoElideE el) (hg : s.GoodDefaults) :
+    parseItems (emitArgs sl false (s.toMypyE el)) = some s.summary := by
+  rw [emit_shape sl el s hne]
+  have hre : s.shape sl el =
+      (itemsFrom sl 0 (s.aPo el) ++ (if s.po.isEmpty then [] else [Item.slash]) ++ itemsFrom sl s.po.length (s.aPp el)) ++
+      (itemsFrom sl (s.po.length + s.pp.length) (s.aVa el) ++ s.starItems ++
+        itemsFrom sl (s.po.length + s.pp.length + (s.aVa el).length) (s.aKw el) ++
+        itemsFrom sl (s.po.length + s.pp.length + (s.aVa el).length + s.kw.length) (s.aKa el)) := by
+    simp [PySig.shape, List.append_assoc]
+  rw [hre]
+  unfold parseItems
+  rw [run_append, run_positional sl el s hd hg]
+  simp only [Option.bind_some]
+  obtain ⟨st', hr, hn, ha⟩ := run_tail sl el s hg (s.po.length + s.pp.length)
+    (s.po.length + s.pp.length + (s.aVa el).length) (s.po.length + s.pp.length + (s.aVa el).length + s.kw.length)
+    (if s.po.isEmpty then .pre else .post) ((s.po ++ s.pp).any PParam.hasD)
+    (s.po.map (fun p => (p.name, PKind.posOnly, p.hasD)) ++ s.pp.map (fun p => (p.name, PKind.pos, p.hasD)))
+    (by cases s.po <;> simp)
+  rw [hr]
+  simp [hn, ha, PySig.summary]
+
+
+/-- the grammar shape, for any name rule `el` -/
+theorem valid_E (s : PySig) (hd : s.DefaultsOk) (hne : s.NoElideE el) :
+    GrammarShape (emitArgs sl false (s.toMypyE el)) := by
+  rw [emit_shape sl el s hne]
+  have hpo : ∀ a ∈ (s.aPo el), a.kind = .pos ∨ a.kind = .named := by
+    intro a ha; simp only [PySig.aPo, List.mem_map] at ha; obtain ⟨p, _, rfl⟩ := ha; exact Or.inl rfl
+  have hpp : ∀ a ∈ (s.aPp el), a.kind = .pos ∨ a.kind = .named := by
+    intro a ha; simp only [PySig.aPp, List.mem_map] at ha; obtain ⟨p, _, rfl⟩ := ha; exact Or.inl rfl
+  have hkw : ∀ a ∈ (s.aKw el), a.kind = .pos ∨ a.kind = .named := by
+    intro a ha; simp only [PySig.aKw, List.mem_map] at ha; obtain ⟨p, _, rfl⟩ := ha; exact Or.inr rfl
+  obtain ⟨p1, d1⟩ := itemsFrom_params sl 0 (s.aPo el) hpo
+  obtain ⟨p2, d2⟩ := itemsFrom_params sl s.po.length (s.aPp el) hpp
+  obtain ⟨p3, _⟩ := itemsFrom_params sl (s.po.length + s.pp.length + (s.aVa el).length) (s.aKw el) hkw
+  refine ⟨itemsFrom sl 0 (s.aPo el), if s.po.isEmpty then [] else [Item.slash], itemsFrom sl s.po.length (s.aPp el),
+    itemsFrom sl (s.po.length + s.pp.length) (s.aVa el) ++ s.starItems,
+    itemsFrom sl (s.po.length + s.pp.length + (s.aVa el).length) (s.aKw el),
+    itemsFrom sl (s.po.length + s.pp.length + (s.aVa el).length + s.kw.length) (s.aKa el), ?_, ?_, ?_, ?_, ?_, ?_⟩
+  · simp [PySig.shape, List.append_assoc]
+  · intro x hx
+    simp only [List.mem_append] at hx
+    rcases hx with (hx | hx) | hx
+    · exact p1 x hx
+    · exact p2 x hx
+    · exact p3 x hx
+  · cases hq : s.po with
+    | nil => left; simp [PySig.aPo, hq, itemsFrom]
+    | cons p r => right; simp [PySig.aPo, hq, itemsFrom]
+  · cases hv : s.va with
+    | some v =>
+      right; left
+      obtain ⟨ann, he⟩ := argItem_star sl ((s.po.length + s.pp.length) == 0) (mkVArgE el .star v) rfl rfl
+      exact ⟨v.name, ann, by simp only [PySig.aVa, hv, Option.toList_some, List.map_cons, List.map_nil, itemsFrom, PySig.starItems, Option.isNone_some, Bool.false_and, Bool.false_eq_true, ↓reduceIte, List.append_nil]; exact congrArg (· :: []) he⟩
+    | none =>
+      cases hq : s.kw with
+      | nil => left; simp [PySig.aVa, PySig.aKw, hv, hq, itemsFrom, PySig.starItems]
+      | cons p r => right; right; simp [PySig.aVa, PySig.aKw, hv, hq, itemsFrom, PySig.starItems]
+  · cases hk : s.ka with
+    | none => left; simp [PySig.aKa, hk, itemsFrom]
+    | some v =>
+      right
+      obtain ⟨ann, he⟩ := argItem_star2 sl
+        ((s.po.length + s.pp.length + (s.aVa el).length + s.kw.length) == 0) (mkVArgE el .star2 v) rfl rfl
+      exact ⟨v.name, ann, by simp only [PySig.aKa, hk, Option.toList_some, List.map_cons, List.map_nil, itemsFrom]; exact congrArg (· :: []) he⟩
+  · rw [List.map_append, d1, d2, aPo_hasD el, aPp_hasD el, ← List.map_append]
+    exact hd
+
+
+/-! ### magic methods: `actually_pos_only_args` is false, the flags are ignored -/
+
+def clearPO (a : Arg) : Arg := { a with posOnly := false }
+
+theorem argItem_clearPO (f : Bool) (a : Arg) : argItem sl f (clearPO a) = argItem sl f a := rfl
+
+theorem estep_magic (st : ESt) (a : Arg) : estep sl true st a = estep sl false st (clearPO a) := by
+  simp [estep, clearPO, argItem]
+
+theorem fold_magic (args : List Arg) (st : ESt) :
+    args.foldl (estep sl true) st = (args.map clearPO).foldl (estep sl false) st := by
+  induction args generalizing st with
+  | nil => rfl
+  | cons a r ih => simp only [List.foldl_cons, List.map_cons, estep_magic, ih]
+
+theorem emit_magic (args : List Arg) : emitArgs sl true args = emitArgs sl false (args.map clearPO) := by
+  simp only [emitArgs, fold_magic]
+
+theorem toMypy_clearPO (s : PySig) (h : s.po = []) :
+    (s.toMypyE el).map clearPO = s.toMypyE (fun _ => false) := by
+  simp [PySig.toMypyE, h, mkArgE, mkVArgE, clearPO, Function.comp_def]
 
 end StubSig
